@@ -196,6 +196,7 @@ package authz
 //@   ensures  refresh_failure: RespCode(resp) != 0 && IdP.n != old(IdP.n) && req.GetAttributes().GetRequest().GetHttp() != nil && !IsCallbackReq(o.config, req.GetAttributes().GetRequest().GetHttp()) ==> !View[StoreFor(o.sessions, o.config).pay][Presented].present || IsSessionError(resp)
 //@   ensures  deny_content: RespCode(resp) != 0 ==> PlainDeny(DeniedOf(resp)) || IsSessionError(resp) || OopsDeny(DeniedOf(resp)) || BackRedirect(DeniedOf(resp), old(View)[StoreFor(o.sessions, o.config).pay][Presented].auth.url) || LogoutAnswer(resp, o.config) || LoginRedirect(DeniedOf(resp), o.config, View[StoreFor(o.sessions, o.config).pay][LastSid].auth, LastSid)
 //@   ensures  ok_forwards: RespCode(resp) == 0 ==> len(OkOf(resp).Headers) >= len(old(resp.GetOkResponse().GetHeaders())) && forall i int :: len(old(resp.GetOkResponse().GetHeaders())) <= i && i < len(OkOf(resp).Headers) ==> FwdHdrTok(OkOf(resp).Headers[i], o.config, View[StoreFor(o.sessions, o.config).pay][Presented].tok)
+//@   ensures  ok_not_timed_out: RespCode(resp) == 0 ==> !TimedOut(old(View)[StoreFor(o.sessions, o.config).pay][Presented], old(Clk), StoreAbs(StoreFor(o.sessions, o.config)), StoreIdle(StoreFor(o.sessions, o.config)))
 //@   ensures  ok_body: RespCode(resp) == 0 ==> IsOk(resp)
 //@   ensures  deny_body: RespCode(resp) != 0 ==> IsDenied(resp) && DeniedOf(resp) != nil
 
